@@ -697,6 +697,73 @@ def arena(seed):
     return ops
 
 
+def lifecycle(seed):
+    """Handlers that react to the registration events themselves (AddHandler, RemoveHandler, AddComponent, ...) by
+    changing the world - creating archetypes, moving entities - WHILE another handler is being added or removed; then
+    targeted and global events are delivered to every archetype. Reaches the windows inside add_handler / remove_handler
+    (the new handler half registered, the old one half removed)."""
+    r = random.Random(seed)
+    comps = (0, 1, 2, 3)
+    ctx = Ctx(r, comps)
+    ops = []
+    n = r.randint(2, 5)
+    for e in range(n):
+        ops.append("spawn")
+        ctx.nspawn += 1
+        for k in r.sample(list(comps), r.randint(0, 2)):
+            ops.append(f"insert #{e} K{k} {r.randrange(100)}")
+    # reactors: on AddH / RemH / AddC / RemC / AddT they insert or remove a component on a fixed entity (often making an
+    # archetype that did not exist), sometimes send a targeted event right there
+    for i in range(r.randint(1, 3)):
+        recv = r.choice(["AddH", "AddH", "RemH", "RemH", "AddC", "RemC", "AddT", "AddG"])
+        k1, k2 = r.sample(list(comps), 2)
+        sends = [f"InsK{k1}", f"RemK{k2}"] + (["T0"] if r.random() < 0.5 else []) + (["Spawn"] if r.random() < 0.2 else [])
+        name = f"h{ctx.hcount}"
+        ctx.hcount += 1
+        ctx.names.append(name)
+        body = []
+        for _ in range(r.randint(1, 3)):
+            x = r.random()
+            e = f"#{r.randrange(n)}"
+            if x < 0.5:
+                body.append(f"ins:{e}:K{k1}:{r.randrange(100)}")
+            elif x < 0.8:
+                body.append(f"rem:{e}:K{k2}")
+            elif "T0" in sends:
+                body.append(f"sendto:T0:{e}")
+            elif "Spawn" in sends:
+                body.append("spawn")
+        ops.append(f"addh name={name} prio={r.choice('hml')} params=R:{recv}:i;Snd:{','.join(sends)} body={','.join(body)}")
+    # the handlers whose registration windows are exercised: targeted receivers, fetchers, Singles
+    for _ in range(r.randint(3, 9)):
+        x = r.random()
+        if x < 0.45:
+            recv = r.choice(["T0", "T0", "T1", "Despawn", f"InsK{r.choice(comps)}", f"RemK{r.choice(comps)}"])
+            ops.append(rand_handler(ctx, recv=recv, allow_panic=0, sender_p=0.2, take_p=0.05,
+                                    tid=(r.randrange(3) if r.random() < 0.2 else None)))
+        elif x < 0.6:
+            ops.append(rand_handler(ctx, recv=r.choice(USER_G), allow_panic=0, sender_p=0.2, nfetch=r.choice([1, 2])))
+        elif x < 0.8 and ctx.names:
+            ops.append(f"rmh {r.choice(ctx.names)}")
+        elif x < 0.85:
+            ops.append(f"addc {ctx.k()}")
+        elif x < 0.9:
+            ops.append(f"addev {r.choice(USER_G + USER_T)}")
+        else:
+            ops.append(structural_op(ctx))
+        # deliveries to every entity after each change
+        if r.random() < 0.6:
+            for e in range(min(ctx.nspawn, 5)):
+                ops.append(f"sendto T0 #{e}")
+            if r.random() < 0.4:
+                ops.append(f"send {r.choice(USER_G)}")
+    for e in range(min(ctx.nspawn, 5)):
+        ops.append(f"sendto T0 #{e}")
+    ops.append("send G0")
+    ops.append("drop")
+    return ops
+
+
 PROFILES = {
     "general": general,
     "storage": storage,
@@ -705,6 +772,7 @@ PROFILES = {
     "queries": queries,
     "targeted": targeted,
     "cascade": cascade,
+    "lifecycle": lifecycle,
     "priorities": priorities,
     "spawns": spawns,
     "arena": arena,
